@@ -52,6 +52,10 @@ func c15Streams(quick bool) []string {
 	}
 	// five documents, one shape
 	out = append(out, "1 2 3 4 5", `[1,2] [2] [] [2,2] {"a":2}`, "null false null false null", "1 1 1 1 1")
+	// deep documents: lines indented by more than the encoder's indentation block
+	for _, d := range []int{48, 49, 50, 97, 130} {
+		out = append(out, strings.Repeat("[", d)+`"x"`+strings.Repeat("]", d), strings.Repeat(`{"k":[`, d/2)+"null"+strings.Repeat("]}", d/2)+" 1")
+	}
 	var withTails []string
 	for i, s := range out {
 		withTails = append(withTails, s)
